@@ -118,3 +118,31 @@ Definition chk_pull (tab : list (bytes * digest)) (fx : bool) (pre : store) (nam
 
 (** server start between attempts *)
 Definition chk_prune (pre post : store) : bool := store_eqb (startup_prune pre) post.
+
+(** *** two pulls at the same time.  The second one joins the first one's download of a shared layer
+    (blobDownloadManager) and gets that download's result.  Reference: the two attempts one after the other, each
+    verifying what it did not find under its digest name, against the same served responses; the stores after both and
+    both results must agree (requests are not compared: the joiner makes none for the shared layer). *)
+Definition run_logged (tab : list (bytes * digest)) (fx : bool) (pre : store) (name : N) (lg : plog) : option (store * bool) :=
+  match manifest_of true (pl_manifest lg) with
+  | None => None
+  | Some mo =>
+      let ls := match mo with Some m => all_layers m | None => [] end in
+      let envs := map (fun l => match lookup N.eqb (l_digest l) (pl_blobs lg) with
+                                | Some b => match benv_of true b with Some e => e | None => mkBenv None false (fun _ => []) end
+                                | None => mkBenv None false (fun _ => [])
+                                end) ls in
+      let '(st, r, _) := pull (H_of tab) fx go_consts pre name (mkPenv mo envs) in
+      Some (st, match r with PSuccess => true | PFail => false end)
+  end.
+
+Definition chk_par (tab : list (bytes * digest)) (fx : bool) (pre : store)
+           (nameA : N) (lgA : plog) (succA : bool) (nameB : N) (lgB : plog) (succB : bool) (post : store) : bool :=
+  match run_logged tab fx pre nameA lgA with
+  | None => false
+  | Some (st1, rA) =>
+      match run_logged tab fx st1 nameB lgB with
+      | None => false
+      | Some (st2, rB) => Bool.eqb rA succA && Bool.eqb rB succB && store_eqb st2 post
+      end
+  end.
